@@ -733,4 +733,14 @@ func runC09(r *report.Report) {
 		r.AddExploration(cf.name, "history", fmt.Sprintf("all histories of depth %d over API calls and broker behaviours (qos %v, faults %v, spurious/duplicate acks and sub/unsub %v), delay bound %d", cf.p.Depth, cf.p.QOS, cf.p.Faults, cf.p.Extra, cf.bound), st,
 			"one execution = one history; instant clause at every PUBLISH the client writes, store / future / return clauses at every quiescence; non-trivial = fault, acknowledgement and retransmission events (counted)", "fault", "ack", "retransmission")
 	}
+	// the closed system: this client against the real broker (package h/e2e)
+	de := 5
+	if r.Tier == "thorough" {
+		de = 7
+	}
+	ste := explore.Explore(explore.Config{Harness: "E2E.hist", Params: fmt.Sprintf(`{"Depth":%d,"QOS":[1,2],"Faults":true}`, de), Bound: 0, Workers: report.Workers(), Deadline: r.Deadline(),
+		OnlyClauses: []string{"futures-resolve", "calls-return", "reconnects", "setup"}})
+	r.AddExploration("end-to-end", "history", fmt.Sprintf("real client library (publisher, subscriber) <-> real broker over codec pipes: all histories of depth %d over {publish QoS 1/2, drop / write failure / broker write failure on either connection, reconnect with the same session}, then both sides reconnect", de), ste,
+		"Publish and Close return, a client can reconnect with its session, every publish future resolves once both sides are connected and idle again; non-trivial = histories with a publish / with a fault", "published", "fault")
+
 }
